@@ -9,8 +9,9 @@ echo "$RES"
 mkdir -p "$D"
 cp "$WT/_seed/change$K.diff" "$D/patch.diff"
 rm -rf "$D/demo"; cp -r "$WT/_seed/demo$K" "$D/demo"
+[ -d "$WT/_seed/common" ] && { rm -rf "$D/common"; cp -r "$WT/_seed/common" "$D/common"; }
 cp "$WT/_seed/meta$K.json" "$D/agent_meta.json" 2>/dev/null
 echo "$RES" > "$D/confirmation.txt"
 echo "### $P-$K try all quick checks"
-TRY_REPO=/tmp/repo-try TRY_VERIF=/tmp/verif-snap TRY_OUT="$D/try_quick.json" python3 /tmp/verif-snap/tools/try_seed.py "$D/patch.diff" > "$D/try_quick.txt" 2>&1
+TRY_REPO=/tmp/repo-try$LANE TRY_VERIF=/tmp/verif-snap$LANE TRY_OUT="$D/try_quick.json" python3 /tmp/verif-snap$LANE/tools/try_seed.py "$D/patch.diff" > "$D/try_quick.txt" 2>&1
 tail -1 "$D/try_quick.txt"
